@@ -1162,9 +1162,13 @@ pub fn post_op(cx: &Ctx, b: &Built, op: &Op, s: &StepOut) {
             if s.tx.is_ok() {
                 claim(f, "C08:validator set changes only for the admin", *sender == P::Admin);
                 claim(f, "C14:only a new, well-prefixed validator is added", *which == 0);
+                // the validator list is compared as a multiset: the property does not fix an order
                 let mut c = pre.cfg.clone();
                 c.native_chain_config.validators.push(cosmwasm_std::Addr::unchecked(who.val3.clone()));
-                claim(f, "C14:add changes exactly the named validator", c == post.cfg && raw_equal_except(&pre.raw, &post.raw, &[b"config"]));
+                c.native_chain_config.validators.sort();
+                let mut p2 = post.cfg.clone();
+                p2.native_chain_config.validators.sort();
+                claim(f, "C14:add changes exactly the named validator", c == p2 && raw_equal_except(&pre.raw, &post.raw, &[b"config"]));
             }
         }
         Op::RemoveValidator { sender, which } => {
@@ -1173,7 +1177,10 @@ pub fn post_op(cx: &Ctx, b: &Built, op: &Op, s: &StepOut) {
                 claim(f, "C14:only a listed validator is removed", *which == 0);
                 let mut c = pre.cfg.clone();
                 c.native_chain_config.validators.retain(|v| v.as_str() != who.val1);
-                claim(f, "C14:remove changes exactly the named validator", c == post.cfg && raw_equal_except(&pre.raw, &post.raw, &[b"config"]));
+                c.native_chain_config.validators.sort();
+                let mut p2 = post.cfg.clone();
+                p2.native_chain_config.validators.sort();
+                claim(f, "C14:remove changes exactly the named validator", c == p2 && raw_equal_except(&pre.raw, &post.raw, &[b"config"]));
             }
         }
         Op::TransferOwnership { sender, .. } | Op::RevokeOwnership { sender } => {
